@@ -435,7 +435,17 @@ pub fn generate(rng: &mut Rng, mode: Prop) -> Scenario {
                 0 => gen_new(rng, &sc, &offsets),
                 1 => gen_set_program(rng, &sc, m, &offsets, &past),
                 2 => Op::SetVerifier { vid: rng.range(V_DEFAULT_EQ as u64, V_TAG_ODD as u64) as u8 },
-                3 => gen_register_helper(rng, mode, &sc, m, &past),
+                3 => {
+                    // rarely a burst of registrations under keys no program calls: the helper table
+                    // grows past the sizes at which a hash table re-hashes (or a small array spills)
+                    if rng.chance(1, 30) {
+                        let base = 0x100 + rng.below(64) as u32;
+                        for k in 0..rng.range(8, 30) as u32 {
+                            forced.push(Op::RegisterHelper { key: base + k, hid: rng.range(H_MIX0 as u64, H_MIX3 as u64) as u8 });
+                        }
+                    }
+                    gen_register_helper(rng, mode, &sc, m, &past)
+                }
                 4 => Op::SetCalc { cid: rng.below(N_CALCS as u64) as u8 },
                 5 => Op::JitCompile,
                 6 => Op::ClCompile,
